@@ -23,7 +23,7 @@ impl Prop for C12 {
         "C12"
     }
     fn rule(&self) -> String {
-        "cases = C03-style conversations x arrival schedule: strict lock-step (the embedded reference client releases message i+1 only after the reply to message i has been decoded from *flushed* bytes), fully pipelined, or chunkings that end reads after k complete commands plus a partial one; short transport writes; 1 in 5 conversations has one reply of 254-1026 packets (around the multiples of 256). Oracle, at every read() call: with M = client messages wholly contained in the bytes delivered so far, the bytes covered by the last flush() decode to the greeting plus a complete reply to every reply-expecting message in M; in lock-step mode the server must never call read() while the client is still owed a reply ('would block forever') and every command must be served. Non-trivial = some read delivered >= 2 whole commands, or lock-step with >= 3 exchanges.".into()
+        "cases = C03-style conversations x arrival schedule: strict lock-step (the embedded reference client releases message i+1 only after the reply to message i has been decoded from *flushed* bytes), fully pipelined, or chunkings that end reads after k complete commands plus a partial one; short transport writes; 1 in 5 conversations has one reply of 254-1026 packets (around the multiples of 256); 1 in 6 pads a query so that a message or a burst is exactly 4096*2^k bytes on the wire (a read that exactly fills the receive buffer). Oracle, at every read() call: with M = client messages wholly contained in the bytes delivered so far, the bytes covered by the last flush() decode to the greeting plus a complete reply to every reply-expecting message in M; in lock-step mode the server must never call read() while the client is still owed a reply ('would block forever') and every command must be served. Non-trivial = some read delivered >= 2 whole commands, or lock-step with >= 3 exchanges.".into()
     }
     fn assumptions(&self) -> Vec<String> {
         vec!["invariant over a blocking in-memory transport, not a kernel socket; plaintext only (C18 applies the lock-step detection over TLS)".into()]
@@ -50,6 +50,30 @@ impl Prop for C12 {
                 let cols: Vec<crate::vals::ColSpec> = (0..ncols).map(|i| crate::vals::ColSpec::simple(&format!("c{}", i), T_LONG, 0)).collect();
                 let rows: Vec<RowProg> = (0..rows).map(|r| RowProg { cells: (0..ncols).map(|c| crate::vals::Val::plain(crate::vals::Base::I32((r + c) as i32))).collect(), form: RowForm::WriteRow }).collect();
                 conv.actions[ai] = Action::Result(Program { steps: vec![Step::Set { cols, rows, end: SetEnd::Finish }] });
+            }
+        }
+        // sometimes pad one query so that a message (or everything up to it) ends exactly where a
+        // receive buffer of 4096 * 2^k bytes would be full
+        if g.chance(1, 6) {
+            let (_, ends, _) = client_stream_meta(&conv);
+            let qs: Vec<usize> = conv.cmds.iter().enumerate().filter(|(_, sc)| matches!(sc.cmd, Cmd::Query { .. }) && sc.cmd.reply_kind() == ReplyKind::Query).map(|(i, _)| i).collect();
+            if !qs.is_empty() {
+                let qi = *g.pick(&qs);
+                if let Cmd::Query { text } = &conv.cmds[qi].cmd {
+                    let t = text.bytes();
+                    if !crate::model::is_builtin_probe(&t) && !crate::model::is_use_stmt(&t) && !t.is_empty() {
+                        let target = 4096usize << g.below(3);
+                        // either the message alone is `target` bytes on the wire, or the stream up to its end is
+                        let start = if qi == 0 { ends[0] } else { ends[qi] };
+                        let msg_len = 4 + 1 + t.len();
+                        let want_total = if g.coin() { target } else { target.saturating_sub(start % target).max(msg_len) };
+                        if want_total > msg_len {
+                            let mut t2 = t.clone();
+                            t2.extend(std::iter::repeat(b' ').take(want_total - msg_len));
+                            conv.cmds[qi].cmd = Cmd::Query { text: Blob::Lit(t2) };
+                        }
+                    }
+                }
             }
         }
         let (len, ends, _) = client_stream_meta(&conv);
